@@ -423,6 +423,16 @@ func (realComp) Exec(c *wire.Case, w *wire.Writer) {
 				}
 			}
 			if same {
+				// the same run with no logger attached (as the batch iterations of the command line run): the result is a function of
+				// configuration, script and seed, so it is the result of the logged run
+				u := realRun(op, false)
+				res := func(o *realOut) string { return fmt.Sprintf("%s|%x|%x|%x|%v|%v", o.kind, o.dealt, o.taken, o.av, o.cd, o.ct) }
+				if res(u) != res(first) {
+					same = false
+					w.Ob(wire.R("differs").S("where", "without-loggers").I("rep", 0).I("line", -1).S("a", clip(res(first))).S("b", clip(res(u))).S("kinds", first.kind+"/"+u.kind))
+				}
+			}
+			if same {
 				// the repetitions again with one evaluator value for all of them (what a caller that keeps its evaluator does):
 				// every run re-initialises it, so nothing of an earlier run may show
 				if list, err := parse.New(unhex(op.Str("script"))).Parse(); err == nil {
@@ -770,6 +780,25 @@ func (realComp) Gen(r *rand.Rand, tier string, n int) []*wire.Case {
 			team("d-cone-fine-fruit", [2]string{"natasha", "fine_fruit"}, [2]string{"asta", "chorus"}, [2]string{"gepard", "day_one_of_my_new_life"})
 			team("d-cone-preservation", [2]string{"gepard", "day_one_of_my_new_life"}, [2]string{"march7th", "we_are_wildfire"}, [2]string{"natasha", "fine_fruit"}, [2]string{"bronya", "chorus"})
 			team("d-cone-wildfire", [2]string{"march7th", "we_are_wildfire"}, [2]string{"gepard", "we_are_wildfire"})
+			// relic sets whose effect looks at the line-up's stats when the battle starts: a wearer fast enough for it (sub stats give speed)
+			relicCase := func(id, c, lc, set string) {
+				if !has(chars, c) || !has(lcs, lc) || !has(relics, set) {
+					return
+				}
+				s := realSpecGen(r, []string{c}, lcs, relics)
+				s.chars, s.lcs, s.eidols, s.levels = []string{c}, []string{lc}, []int{0}, []int{80}
+				other := relics[r.Intn(len(relics))]
+				s.relics = []string{set + "*2/" + other + "*4"}
+				s.quirk, s.tmask, s.cycles, s.ehp = 4, 0, 3, 20000
+				s.script = realScript(r, s.chars)
+				cases = append(cases, &wire.Case{ID: id, Ops: []*wire.Rec{s.rec("repeat").I("k", 2)}})
+			}
+			relicCase("d-relic-vonwacq", "danheng", "only_silence_remains", "sprightly_vonwacq")
+			if tier == "thorough" {
+				for _, set := range relics {
+					relicCase("d-relic-"+set, pick(r, "danheng", "asta", "natasha"), pick(r, "only_silence_remains", "meshing_cogs", "perfect_timing"), set)
+				}
+			}
 		}
 		for i := 0; i < n; i++ {
 			s := realSpecGen(r, chars, lcs, relics)
